@@ -260,7 +260,9 @@ template <class T> static void run_reuse(Choice &c, Ctx &cx)
         if (ab) { cx.fail("abort", tag + ": library called ABORT: " + vf_abort_msg()); ok = false; break; }
         long long info = e.info;
         if (info < 0) { cx.fail("info", tag + fmt(": valid call returned info=%lld", info)); ok = false; break; }
-        if (info > n + 1) { shortage_at = st; e.lu_live = false; break; }   // shortage: nothing more can be asked of this workspace
+        // shortage: nothing more can be asked of this workspace.  The L and U objects of an earlier successful call are still
+        // the caller's to destroy (their Store records are library allocations; the arrays live in work[]).
+        if (info > n + 1) { shortage_at = st; if (st == 0) e.lu_live = false; else e.lu_live = true; break; }
         if (info >= 1 && info <= n) { cx.label("singular-return"); break; }
         if (!resolve) {
             Dense<W> AA = factored_matrix(e); LUDecoded<T> dec;
